@@ -836,4 +836,88 @@ example :
 /-- audit 2, N7: `format_error` of an exception whose `_traceback` is garbage - the model used to say "returns" -/
 example : render (.fmtErr ⟨false, true, .garbage, false⟩) .str = .raised .attributeError := by decide
 
+/-! ## later retrievals of the error of a failed chain (round 5) -/
+
+/-- **a second, third, ... consumer of a failed task sees the glued traceback, not what earlier consumers saw**: for
+    every error prepared for re-raise (`_type_` set, `_traceback` showing `fs`) and EVERY content of its
+    `__traceback__` (the frames of any number of earlier consumers), the synchronous caller catches it with the
+    caller's frame followed by exactly `fs` -/
+theorem C18_retrieval_resets (e : Err) (junk : List Frame) (fs : List Frame)
+    (h2 : e.hasType = true) (h3 : userFrames e.tb = fs) :
+    userFrames (callerView { e with cur := junk }) = .caller :: fs := by
+  simp only [userFrames] at h3
+  simp [callerView, unwind, valueRaises, reraise, h2, userFrames, List.filter_cons, isUser, h3]
+
+/-- **refinement with later retrievals, for all chains of at least one task and all lists of retrievals** (the same
+    task asked again; a new task put on top of the failed one with `yield` or a synchronous call, any number of
+    times, in any order): the whole observation of the model of the code = the reference observation, in which every
+    retrieval shows the caller's frame, one frame per task level crossed NOW, and the raising frames -/
+theorem C18_again_refines_partial (rule : FrameRule) (bottom : Bottom) (L : Level) (rest : List Level)
+    (rs : List Retrieval) (hsafe : rule = .own ∨ stackSafe bottom 0 (L :: rest) = true) :
+    runTopAgain rule bottom (L :: rest) rs = refTopAgain bottom (L :: rest) rs := by
+  have hglue := C18_glue rule bottom (L :: rest)
+  have hagr := run_agrees rule bottom (L :: rest) 0 []
+  simp only [runTopAgain, refTopAgain, refAgain, C18_glue_refines_partial rule bottom (L :: rest) hsafe]
+  congr 1
+  cases ho : (run rule bottom 0 [] (L :: rest)).out with
+  | none =>
+    rw [ho] at hglue
+    cases hr : ref bottom 0 (L :: rest) with
+    | none => rfl
+    | some p => simp [hr] at hglue
+  | some e =>
+    rw [ho] at hagr
+    cases hr : ref bottom 0 (L :: rest) with
+    | none => simp [hr, Agrees] at hagr
+    | some p =>
+      obtain ⟨tok, fs⟩ := p
+      simp only [hr, Agrees] at hagr
+      obtain ⟨htok, hinv⟩ := hagr
+      have ht := run_out_hasTask rule bottom L rest 0 [] e ho
+      have hst : Stored e fs := ⟨ht, by rw [← hinv.same, ht], hinv.tb⟩
+      have hs := seen_stored hst
+      simp only
+      rw [retrievals_ref rule rs 0 _ _ hs.1, hs.2, htok]
+
+/-- **what `SPEC=ok` means for a run with later retrievals: the events ARE the reference events** (both directions) -/
+theorem C18_again_observer_exact (bottom : Bottom) (levels : List Level) (rs : List Retrieval) (events : List Event) :
+    againClause bottom levels rs events = "ok" ↔ events = refTopAgain bottom levels rs := by
+  unfold againClause
+  constructor
+  · intro h
+    by_cases he : (events == refTopAgain bottom levels rs) = true
+    · exact eq_of_beq he
+    · exfalso
+      simp only [he, Bool.false_eq_true, if_false] at h
+      split at h
+      · rename_i hc
+        rw [h] at hc
+        exact absurd hc (by decide)
+      · split at h
+        · exact absurd h (by decide)
+        · rename_i hw
+          exact hw (by simp [h])
+  · intro h
+    simp [h]
+
+/-- the observer accepts every run of the model with later retrievals -/
+theorem C18_again_spec_holds_partial (rule : FrameRule) (bottom : Bottom) (L : Level) (rest : List Level)
+    (rs : List Retrieval) (hsafe : rule = .own ∨ stackSafe bottom 0 (L :: rest) = true) :
+    againClause bottom (L :: rest) rs (runTopAgain rule bottom (L :: rest) rs) = "ok" :=
+  (C18_again_observer_exact bottom (L :: rest) rs _).mpr (C18_again_refines_partial rule bottom L rest rs hsafe)
+
+/-- non-vacuity: `raise self._error` instead of `reraise` (seed C18-10) - the second consumer would see the first
+    consumer's frames in the middle of the chain; the observer names it -/
+example :
+    againClause .none [Lp, Lr 0] [.direct]
+      (refTop .none [Lp, Lr 0] ++
+        [.result (some (11, [.caller, .caller, .task 0, .task 1], [.caller, .caller, .task 0, .task 1], [.task 0, .task 1]))])
+      = "retrieval-glued-traceback" ∧
+    againClause .none [Lp, Lr 0] [.direct, .viaTask .sync] (runTopAgain .own .none [Lp, Lr 0] [.direct, .viaTask .sync]) = "ok" ∧
+    refAgain .none [Lp, Lr 0] [.direct, .viaTask .sync] =
+      [.result (some (11, [.caller, .task 0, .task 1], [.caller, .task 0, .task 1], [.task 0, .task 1])),
+       .result (some (11, [.caller, .task 101, .task 0, .task 1], [.caller, .task 101, .task 0, .task 1],
+         [.task 101, .task 0, .task 1]))] := by
+  decide
+
 end AsynqModel.Debug
